@@ -887,6 +887,116 @@ func c03Generate(e *c03Env, rnd *vh.Rand) error {
 		}
 	}
 	lap("I other-format objects")
+	// J. histories on ONE store object: the chunk is read successfully, then its object on disk is
+	// damaged -- keeping size and modification time (another chunk's valid object of the same
+	// size, so that it still decodes), or changing one of them -- and read again through the same
+	// store; later it is restored and read once more.  Every leaf that keeps objects on disk:
+	// local compressed / uncompressed, bare, as cache under Cache (with and without repair), in a
+	// router / failover / dedup, behind the network front ends; consumers after the damage.
+	hist := []struct {
+		name  string
+		build func() (*c03Node, *c03Node) // stack, the disk leaf that gets damaged
+	}{
+		{"bare", func() (*c03Node, *c03Node) { l := g.leaf("local", g.rnd.Bool(), false); return l, l }},
+		{"bare-unc", func() (*c03Node, *c03Node) { l := g.leaf("local", true, false); return l, l }},
+		{"bare-comp", func() (*c03Node, *c03Node) { l := g.leaf("local", false, false); return l, l }},
+		{"cache", func() (*c03Node, *c03Node) {
+			l := g.leaf("local", g.rnd.Bool(), false)
+			return g.wrap("cache", g.leaf(lk(), g.rnd.Bool(), false), l), l
+		}},
+		{"cache-repair", func() (*c03Node, *c03Node) {
+			l := g.leaf("local", g.rnd.Bool(), false)
+			return g.wrap("cache", g.leaf("local", g.rnd.Bool(), false), g.wrap("repair", l)), l
+		}},
+		{"cache-upstream", func() (*c03Node, *c03Node) { // the upstream store is the one that changes
+			l := g.leaf("local", g.rnd.Bool(), false)
+			return g.wrap("cache", l, g.leaf("local", g.rnd.Bool(), false)), l
+		}},
+		{"router", func() (*c03Node, *c03Node) {
+			l := g.leaf("local", g.rnd.Bool(), false)
+			return g.wrap("router", l, g.leaf(lk(), g.rnd.Bool(), false)), l
+		}},
+		{"cli-shape", func() (*c03Node, *c03Node) {
+			l := g.leaf("local", g.rnd.Bool(), false)
+			return g.wrap("cache", g.wrap("router", g.wrap("failover", g.leaf("local", g.rnd.Bool(), false), g.leaf("local", false, false))), g.wrap("repair", l)), l
+		}},
+		{"dedup-swap", func() (*c03Node, *c03Node) {
+			l := g.leaf("local", g.rnd.Bool(), false)
+			return g.wrap("dedup", g.wrap("swap", l)), l
+		}},
+		{"http-handler", func() (*c03Node, *c03Node) {
+			l := g.leaf("local", false, false)
+			n := g.wrap("http", l)
+			n.SComp = true
+			return n, l
+		}},
+		{"proto", func() (*c03Node, *c03Node) {
+			l := g.leaf("local", g.rnd.Bool(), false)
+			n := g.wrap("proto", l)
+			n.Keep = true
+			return n, l
+		}},
+	}
+	for _, h := range hist {
+		for _, dmg := range []string{"same-size-keep-mtime", "same-size-new-mtime", "other-size-keep-mtime", "flip-keep-mtime", "truncate-keep-mtime"} {
+			nrep := 1
+			if thorough {
+				nrep = 4
+			}
+			for rep := 0; rep < nrep; rep++ {
+				g.reset()
+				digest := g.setDigest()
+				st, lf := h.build()
+				n := []int{1, 16, 100, 1000, 4096}[g.rnd.Intn(5)]
+				d := g.rnd.Bytes(n) // incompressible: equal plain lengths give equal object lengths
+				good := c03Enc(d, lf.Unc)
+				var other, bad []byte
+				for try := 0; try < 40; try++ {
+					other = g.rnd.Bytes(n)
+					if dmg == "other-size-keep-mtime" {
+						other = g.rnd.Bytes(n + 1 + g.rnd.Intn(5))
+					}
+					bad = c03Enc(other, lf.Unc)
+					if string(other) != string(d) && (dmg == "other-size-keep-mtime" || len(bad) == len(good)) {
+						break
+					}
+				}
+				mode := "keep"
+				switch dmg {
+				case "same-size-new-mtime":
+					mode = "touch"
+				case "flip-keep-mtime":
+					bad = append([]byte{}, good...)
+					bad[g.rnd.Intn(len(bad))] ^= 1 << uint(g.rnd.Intn(8))
+				case "truncate-keep-mtime":
+					bad = good[:len(good)-1]
+				}
+				id := c03ID(d)
+				c := &c03Case{Name: "history/" + h.name + "/" + dmg, Digest: digest, Stack: st}
+				for _, l := range c03Leaves(st) {
+					if l.kind == "foreign" {
+						continue
+					}
+					// the chunk is everywhere except in a cache that is about to be filled
+					if st.T == "cache" && len(st.Kids) == 2 && l.k == lf.K && st.Kids[0] != lf && g.rnd.Bool() {
+						continue
+					}
+					c.Slots = append(c.Slots, c03Slot{K: l.k, ID: id, Obj: vh.Hex(c03Enc(d, l.unc)), Kind: "good"})
+				}
+				damage := fmt.Sprintf("m:%d:%s:%s:%s", lf.K, id, vh.Hex(bad), mode)
+				restore := fmt.Sprintf("m:%d:%s:%s:%s", lf.K, id, vh.Hex(good), mode)
+				c.Ops = []string{"g:" + id, "g:" + id, damage, "g:" + id, "g:" + id, fmt.Sprintf("x:%s:%d", id, len(d))}
+				if c03Verifying(st) {
+					c.Ops = append(c.Ops, fmt.Sprintf("r:%s:%s:%s:%d", id, c03ID([]byte{0}), "00", len(d)))
+				}
+				c.Ops = append(c.Ops, restore, "g:"+id, damage, "g:"+id)
+				if err := g.run(c); err != nil {
+					return err
+				}
+			}
+		}
+	}
+	lap("J histories")
 	return nil
 }
 
